@@ -61,7 +61,7 @@ def make_container(t, items):
         return UserList(items)
     if t == "odict":
         import collections
-        return collections.OrderedDict(("k%d" % i, x) for i, x in enumerate(items))
+        return collections.OrderedDict((skey(i), x) for i, x in enumerate(items))
     raise ValueError(t)
 
 
@@ -87,11 +87,21 @@ def build_arg(s):
         raise ValueError("resolved by build_args")
     if t in ("idict", "tdict"):
         return {dict_key(t, i): build_arg(x) for i, x in enumerate(s[1])}
-    return {"k%d" % i: build_arg(x) for i, x in enumerate(s[1])}
+    return {skey(i): build_arg(x) for i, x in enumerate(s[1])}
+
+
+SKEYS = ["zeta", "alpha", "Mid", "k10", "k2", "_u", "B", "a"]
+
+
+def skey(i):
+    """string keys whose insertion order is neither their sorted order nor the order of their reprs (a dict keeps insertion order:
+    arguments, public values and results follow it)"""
+    return SKEYS[i] if i < len(SKEYS) else "k%d" % i
 
 
 def dict_key(t, i):
-    return 2 + 3 * i if t == "idict" else (i, 1.5) if i % 2 else (i, True)
+    # (integer keys 11, 2, 100, 5 ...: insertion order differs from numeric order and from the order of the decimal strings)
+    return [11, 2, 100, 5, 30][i % 5] + 1000 * (i // 5) if t == "idict" else (i, 1.5) if i % 2 else (i, True)
 
 
 def build_args(structs):
@@ -117,7 +127,7 @@ def numeric_leaves(s, path=()):
         yield path, t, s[1]
     elif t in ("list", "tuple", "dict", "ntuple", "odict", "dlist", "idict", "tdict"):
         for i, x in enumerate(s[1]):
-            yield from numeric_leaves(x, path + (dict_key(t, i) if t in ("idict", "tdict") else ("k%d" % i) if t in ("dict", "odict") else i,))
+            yield from numeric_leaves(x, path + (dict_key(t, i) if t in ("idict", "tdict") else skey(i) if t in ("dict", "odict") else i,))
     elif t == "rep":
         for i in range(s[2]):
             yield from numeric_leaves(s[1], path + (i,))
